@@ -273,3 +273,69 @@ pub fn end_is_panic(e: &End) -> Option<&String> {
         _ => None,
     }
 }
+
+/// Swarm-style multi-fault attacks: `count` specs, each with 2..4 structure-aware edits of the
+/// corrupted party's messages (same message, same phase towards several recipients, or an
+/// earlier and a later message to one recipient), scripted adversary.
+pub fn random_multi_faults(cfg: &AttackCfg, r: &RefRun, seed: u64, count: usize) -> Vec<MpcSpec> {
+    use crate::mutate::{self, MutSpec};
+    let mut rng = entropy::rng(seed, 0x5a4a, cfg.base.seed);
+    let ss = sites(&r.run, cfg.c);
+    if ss.is_empty() {
+        return vec![];
+    }
+    let mut out = vec![];
+    for _ in 0..count {
+        let k = rng.random_range(2..=4);
+        let anchor = rng.random_range(0..ss.len());
+        let mode = rng.random_range(0..3);
+        let mut faults: Vec<Fault> = vec![];
+        let mut used: Vec<usize> = vec![];
+        for _ in 0..k {
+            let si = match mode {
+                // several edits in one message
+                0 => anchor,
+                // the same phase towards every recipient
+                1 => {
+                    let cands: Vec<usize> = (0..ss.len()).filter(|i| ss[*i].phase == ss[anchor].phase).collect();
+                    cands[rng.random_range(0..cands.len())]
+                }
+                // an earlier and later messages to the same recipient
+                _ => {
+                    let cands: Vec<usize> = (0..ss.len()).filter(|i| ss[*i].to == ss[anchor].to && *i >= anchor).collect();
+                    cands[rng.random_range(0..cands.len())]
+                }
+            };
+            let m = &r.run.transcript[ss[si].tr];
+            let cat: Vec<MutSpec> = mutate::catalogue(&ss[si].phase, &m.data, &mut rng, false)
+                .into_iter()
+                .filter(|x| matches!(x, MutSpec::At { .. }))
+                .collect();
+            if cat.is_empty() {
+                continue;
+            }
+            let mu = cat[rng.random_range(0..cat.len())].clone();
+            if mode == 0 || !used.contains(&si) {
+                if let (Some(f), true) = (faults.iter_mut().find(|f| f.sel.to == ss[si].to && f.sel.idx == Some(ss[si].idx)), true) {
+                    // merge into one multi-edit of that message
+                    if let (FaultKind::Mutate(old), MutSpec::At { path, op }) = (&f.kind, &mu) {
+                        let mut edits = match old {
+                            MutSpec::At { path: p0, op: o0 } => vec![(p0.clone(), o0.clone())],
+                            MutSpec::Multi(e) => e.clone(),
+                            _ => vec![],
+                        };
+                        edits.push((path.clone(), op.clone()));
+                        f.kind = FaultKind::Mutate(MutSpec::Multi(edits));
+                    }
+                } else {
+                    faults.push(fault_at(cfg.c, &ss[si], FaultKind::Mutate(mu)));
+                }
+                used.push(si);
+            }
+        }
+        if !faults.is_empty() {
+            out.push(attacked_spec(cfg, AdvMode::Scripted, faults, vec![], None, &r.decisions));
+        }
+    }
+    out
+}
